@@ -50,10 +50,10 @@ TOLERANCES = {
 EXHAUSTIVE = {"quick": False, "thorough": False}
 EXHAUSTIVE_PART = "none (sampled cores and histories)"
 FLOORS = {
-    "quick": {"convert.locations": 60, "convert.copies": 1500, "convert.totals": 60, "restore.obs": 40, "edge-roundtrip.obs": 25,
-              "noop.obs": 15, "ambient.lookups": 4000, "independence": 120},
-    "thorough": {"convert.locations": 900, "convert.copies": 30000, "convert.totals": 900, "restore.obs": 600, "edge-roundtrip.obs": 400,
-                 "noop.obs": 250, "ambient.lookups": 80000, "independence": 2000},
+    "quick": {"convert.locations": 100, "convert.copies": 1400, "convert.totals": 100, "restore.obs": 100, "edge-roundtrip.obs": 25,
+              "addEdge.originals": 80, "noop.obs": 90, "ambient.lookups": 4000, "independence": 280},
+    "thorough": {"convert.locations": 1000, "convert.copies": 14000, "convert.totals": 1000, "restore.obs": 1000, "edge-roundtrip.obs": 250,
+                 "addEdge.originals": 800, "noop.obs": 900, "ambient.lookups": 40000, "independence": 2800},
 }
 TIMEOUT = {"quick": 600, "thorough": 3600}
 ASSUMPTIONS = [
@@ -827,8 +827,12 @@ class Case:
         self.seen_nums |= set(a.getNum() for a in self.core)
         return obs(self.core, self.seen_names, self.seen_nums, self.meta["rings"])
 
+    def zones_obs(self):
+        return {z.name: sorted(z) for z in self.core.zones}
+
     def take_ref(self):
         self.composition_edited_in_edge_state = False  # only called in the edge-free third-core state
+        self.ref_zones = self.zones_obs()
         self.ref = self.observe()
         self.ref_derived = derived(self.core, every_nuclide=False)
 
@@ -1211,6 +1215,9 @@ class Case:
             self.rec.violation("restore/core-still-full/%s" % ("convert-had-added-no-assembly" if self.added_by_convert == 0 else "other"),
                                "after restorePreviousGeometry the core is still %s with %d assemblies (convert had added %d)" % (self.core.symmetry, len(self.core), self.added_by_convert), w)
             return "restore-left-full"
+        if self.zones_obs() != getattr(self, "ref_zones", {}):
+            # observed, not judged: zones are not among the things the property calls the state of the core
+            self.rec.skip("observation: after restorePreviousGeometry core.zones still lists the locations of the removed assemblies (zones are outside the property's state)")
         if self.ref is not None:
             note = None
             self.judge_same(self.ref, self.observe(), "restore", "restore.obs", centre_scaled=True, note=note)
@@ -1342,6 +1349,16 @@ def run_shard(spec, rec):
             continue
         lookups_ok(core, rec, case.w(), "after build")
         independence(core, rec, case.w(), "build")
+        if rng.random() < .3 and len(core) > 1:
+            from armi.reactor import zones as zmod
+
+            za, zb = zmod.Zone("inner"), zmod.Zone("outer")
+            for a_ in core:
+                (za if a_.spatialLocator.getRingPos()[0] <= 2 else zb).addLoc(a_.getLocation())
+            core.zones.addZone(za)
+            if len(zb):
+                core.zones.addZone(zb)
+            rec.add("cores_with_zones")
         if rng.random() < .8:
             case.op_assign()
         else:
